@@ -118,6 +118,8 @@ class Rejected(Family):
         for L in Ls:
             for kind in ("fresh", "tracked", "reshaped", "reshaped-other-range"):
                 for case in WEAVER_CASES:
+                    if L > 5 and kind == "reshaped-other-range" and case == "match:unknown-reference-rule":
+                        continue    # two unrelated 6-point grids through the matching front end: ~26k paths per name (measured 1450 s)
                     names = BAD_NAMES if ("unknown" in case) else (None,)
                     if case.startswith("recreate:n="):
                         names = (None, "adaptive")
